@@ -697,6 +697,17 @@ def models(draw, feats=(), max_classes=5, doc_type=None):
                 sc['params'].append({'name': 'note', 'type': 'any', 'default': ['none']})
             classes.append(sc)
             objs.append('S')
+    force_doc = None
+    if 'scalarized' in feats and draw(st.integers(0, 3)) == 0:
+        # the documentation's "Postcode" recipe: an object written as one string
+        classes.append({'name': 'Z', 'kind': 'obj', 'bases': [], 'params': [
+            {'name': 'text', 'type': 'str'}],
+            'recognize': [['scalar', ['str']]],
+            'savorize': [['scalar_to_map', 'text']],
+            'sweeten': [['map_to_scalar', 'text']]})
+        objs.append('Z')
+        z = ['ref', 'Z']
+        force_doc = draw(st.sampled_from([None, ['list', z], ['dict', 'str', z], ['list', ['opt', z]], z]))
     if 'sweeten' in feats:
         add_sweeten(draw, classes, feats)
     if 'discriminator' in feats:
@@ -714,6 +725,8 @@ def models(draw, feats=(), max_classes=5, doc_type=None):
     reg_objs = [o for o in objs]
     if doc_type is not None:
         spec['doc_type'] = doc_type
+    elif force_doc is not None:
+        spec['doc_type'] = force_doc
     else:
         top = []
         if reg_objs:
